@@ -459,7 +459,8 @@ func (s *Session) Run() (err error) {
 
 			s.processIncSeq(incomingLogon)
 		case SuccessfulLogged:
-			s.sendWithErrorCheck(s.MakeReject(s.SessionErrorCodes.Other, 0, incomingLogon.HeaderBuilder().MsgSeqNum()))
+			// like the other handlers: refers to the sequence number, or names its tag when it is missing
+			s.RejectMessage(data)
 		}
 
 		return true
